@@ -17,7 +17,8 @@ import (
 
 type KnownFinding struct {
 	Property   string `json:"property"`
-	Obligation string `json:"obligation"` // exact name, or prefix ending in *
+	Obligation string `json:"obligation"`      // exact name, or prefix ending in *
+	Match      string `json:"match,omitempty"` // bounded stand-ins: regexp every reported failing case must match (the region of the finding)
 	What       string `json:"what"`
 }
 
@@ -69,13 +70,13 @@ func obHasProp(o *Obligation, p string) bool {
 }
 
 type boundedResult struct {
-	Name   string `json:"name"`
-	Pkg    string `json:"package"`
-	Domain string `json:"domain"`
-	Cases  int    `json:"cases"`
-	Fails  int    `json:"fails"`
-	FirstFail string `json:"first_fail,omitempty"`
-	Secs   float64 `json:"seconds"`
+	Name      string  `json:"name"`
+	Pkg       string  `json:"package"`
+	Domain    string  `json:"domain"`
+	Cases     int     `json:"cases"`
+	Fails     int     `json:"fails"`
+	FirstFail string  `json:"first_fail,omitempty"`
+	Secs      float64 `json:"seconds"`
 }
 
 var reBounded = regexp.MustCompile(`^BOUNDED name=(\S+) cases=(\d+) fails=(\d+) domain="([^"]*)"`)
@@ -309,7 +310,9 @@ func cmdCheck(args []string) {
 		}()
 	}
 	wg.Wait()
-	sort.Slice(execs, func(i, j int) bool { return execs[i].pkg+execs[i].name+execs[i].splitLabel < execs[j].pkg+execs[j].name+execs[j].splitLabel })
+	sort.Slice(execs, func(i, j int) bool {
+		return execs[i].pkg+execs[i].name+execs[i].splitLabel < execs[j].pkg+execs[j].name+execs[j].splitLabel
+	})
 	genSecs := time.Since(t0).Seconds() - loadSecs
 
 	var obs []*Obligation
@@ -330,18 +333,25 @@ func cmdCheck(args []string) {
 	solveAll(obs, vcDir, timeout, thorough, 16)
 
 	// classify
-	isKnown := func(name string) *KnownFinding {
+	isKnownCase := func(name, desc string) *KnownFinding {
 		for i := range known.Findings {
 			k := &known.Findings[i]
 			if k.Property != *prop {
 				continue
 			}
 			if k.Obligation == name || (strings.HasSuffix(k.Obligation, "*") && strings.HasPrefix(name, strings.TrimSuffix(k.Obligation, "*"))) {
+				if k.Match != "" {
+					re, err := regexp.Compile(k.Match)
+					if err != nil || !re.MatchString(desc) {
+						continue
+					}
+				}
 				return k
 			}
 		}
 		return nil
 	}
+	isKnown := func(name string) *KnownFinding { return isKnownCase(name, "") }
 	byBackend := map[string]int{}
 	solverSecs := 0.0
 	discharged, total, covers, coverUnknown := 0, 0, 0, 0
@@ -390,19 +400,30 @@ func cmdCheck(args []string) {
 	boundedCases := 0
 	if len(cfg.Bounded) > 0 {
 		var problems []string
+		seenBounded := map[string]bool{}
 		bounded, problems = runBounded(*root, *verifDir, outBase, *prop, *tier, seed, cfg.Bounded)
 		for _, b := range bounded {
 			boundedCases += b.Cases
 		}
 		for _, pr := range problems {
-			if k := isKnown("bounded:" + strings.SplitN(strings.TrimPrefix(pr, "bounded "), ":", 2)[0]); k != nil {
+			if k := isKnownCase("bounded:"+strings.SplitN(strings.TrimPrefix(pr, "bounded "), ":", 2)[0], pr); k != nil {
 				if !knownHit[k.Obligation] {
 					knownHit[k.Obligation] = true
 					fmt.Printf("KNOWN-FINDING: property=%s %s\n", *prop, k.What)
 				}
 				continue
 			}
-			p := writeSimpleReplay(outBase, *prop, "bounded", pr)
+			bname := "bounded"
+			if strings.HasPrefix(pr, "bounded ") {
+				bname = "bounded-" + strings.SplitN(strings.TrimPrefix(pr, "bounded "), ":", 2)[0]
+			}
+			if seenBounded[bname] {
+				// one VIOLATION line per failing bounded test; further failing cases go into the same file
+				appendSimpleReplay(outBase, *prop, bname, pr)
+				continue
+			}
+			seenBounded[bname] = true
+			p := writeSimpleReplay(outBase, *prop, bname, pr)
 			violate("bounded", p, strings.HasPrefix(pr, "bounded "))
 		}
 	}
@@ -606,6 +627,22 @@ func writeSimpleReplay(verifDir, prop, kind, msg string) string {
 	b, _ := json.MarshalIndent(map[string]any{"property": prop, "obligation": kind, "verifier_output": msg}, "", " ")
 	os.WriteFile(p, b, 0o644)
 	return p
+}
+
+func appendSimpleReplay(verifDir, prop, kind, msg string) {
+	dir := filepath.Join(verifDir, "replays", prop)
+	name := strings.NewReplacer("/", "_", " ", "_", ":", "_", "*", "p", "(", "", ")", "").Replace(kind)
+	if len(name) > 120 {
+		name = name[:120]
+	}
+	p := filepath.Join(dir, name+".json")
+	var m map[string]any
+	if b, err := os.ReadFile(p); err == nil && json.Unmarshal(b, &m) == nil {
+		more, _ := m["more_failing_cases"].([]any)
+		m["more_failing_cases"] = append(more, msg)
+		b, _ := json.MarshalIndent(m, "", " ")
+		os.WriteFile(p, b, 0o644)
+	}
 }
 
 func writeObligationReplay(dir string, o *Obligation, rr ReplayResult) string {
